@@ -108,6 +108,9 @@ class LRTDP(Plans):
             policy_dict[s] = self.policy(mdp, s)
             for a in mdp.actions(s):
                 q_values[s][a] = self.Q(mdp, s, a)
+        for s, is_solved in self.res.solved.items():
+            if is_solved and s not in policy_dict and not mdp.is_absorbing(s):
+                policy_dict[s] = self.policy(mdp, s)
         res.Q = q_values
 
         @FunctionalPolicy
